@@ -743,6 +743,8 @@ func engineLevel(enc *json.Encoder, tmp string, rng *rand.Rand, ngroups int) {
 		shift int
 		print string
 		what  string
+		// only analysed under TruncateLen 0; a run on ANOTHER path goes through the state just before this one
+		onlyL0, afterOther bool
 	}
 	mkVersion := func(text []byte, shift int, what string) version {
 		pr, _ := printNoComments(text)
@@ -750,16 +752,22 @@ func engineLevel(enc *json.Encoder, tmp string, rng *rand.Rand, ngroups int) {
 	}
 	swapped := []byte(targetPrelude + strings.ReplaceAll(string(src[len(targetPrelude):]), "arr", "brr"))
 	header := "// a later version of the same file: everything sits further down now\n"
-	versions := []version{mkVersion(swapped, 0, "2nd version of the file at the same path: same length, every arr is brr"),
+	// a rewritten file of the SAME BYTE LENGTH is analysed DIRECTLY AFTER the version it replaces (nothing but the bytes tells
+	// them apart: path, size, modification time and all offsets coincide) and, later, with a run on another path in between
+	swappedShifted := append([]byte(header), swapped...)
+	versions := []version{mkVersion(swapped, 0, "2nd version of the file at the same path, analysed directly after the original: same length, every arr is brr"),
 		mkVersion(append([]byte(header), src...), len(header), "3rd version of the file at the same path: a comment line in front, all offsets shifted"),
-		mkVersion(src, 0, "4th version of the file at the same path: the original bytes again")}
+		mkVersion(swappedShifted, len(header), "4th version of the file at the same path, analysed directly after the 3rd: same length as the 3rd, every arr is brr"),
+		mkVersion(src, 0, "5th version of the file at the same path: the original bytes again"),
+		mkVersion(swapped, 0, "6th version of the file at the same path, a run on another file in between: same length as the 5th, every arr is brr")}
+	versions[2].onlyL0 = true
+	versions[4].onlyL0, versions[4].afterOther = true, true
 	// ... and the same path once more, parsed into a FileSet of its own (the rules stay loaded with the first one)
 	own := token.NewFileSet()
 	own.AddFile("pad.go", -1, 777)
-	swappedShifted := append([]byte(header), swapped...)
 	ownPrint, _ := printNoComments(swappedShifted)
 	versions = append(versions, version{t: checkInSet(own, "c03/target.go", swappedShifted), src: swappedShifted, shift: len(header), print: ownPrint,
-		what: "5th version of the file at the same path, parsed into another FileSet: shifted and every arr is brr"})
+		what: "7th version of the file at the same path, parsed into another FileSet: shifted and every arr is brr"})
 	first := mkVersion(src, 0, "original file")
 	versions = append([]version{first}, versions...)
 	t := first.t
@@ -950,6 +958,21 @@ func engineLevel(enc *json.Encoder, tmp string, rng *rand.Rand, ngroups int) {
 			enc.Encode(engineObs{K: "engine", L: L, Panic: pmsg})
 			continue
 		}
+		// the second version (same length, other texts) goes through the state directly after the original; the file keeps
+		// its modification time
+		var secondReports []frep
+		secondMsg := ""
+		if L != 1000 {
+			st, _ := os.Stat(t.Path)
+			if err := os.WriteFile(versions[1].t.Path, versions[1].src, 0o644); err != nil {
+				fmt.Fprintln(os.Stderr, "target:", err)
+				os.Exit(3)
+			}
+			if st != nil {
+				os.Chtimes(t.Path, st.ModTime(), st.ModTime())
+			}
+			secondReports, secondMsg = runFile(versions[1].t, L)
+		}
 		// the tail file: comment rules run after the syntax rules of the file; their reports must not carry the function of
 		// the last syntax-rule report (k): nil, or -- for the comment that sits inside k -- k itself
 		tailReports, tmsg := runFile(t3, L)
@@ -972,13 +995,28 @@ func engineLevel(enc *json.Encoder, tmp string, rng *rand.Rand, ngroups int) {
 			enc.Encode(engineObs{K: "engine-func", L: L, Missing: true, Extra: len(tailReports)})
 		}
 		emit(first, L, reports)
-		for _, v := range versions[1:] {
-			if L == 1000 {
-				break // the later versions are analysed under TruncateLen 0 and 20 only
+		if L == 1000 {
+			continue // the later versions are analysed under TruncateLen 0 and 20 only
+		}
+		if secondMsg != "" {
+			enc.Encode(engineObs{K: "engine", L: L, Panic: secondMsg})
+		} else {
+			emit(versions[1], L, secondReports)
+		}
+		for _, v := range versions[2:] {
+			if v.onlyL0 && L != 0 {
+				continue
 			}
+			if v.afterOther {
+				runFile(t3, L)
+			}
+			st, _ := os.Stat(v.t.Path)
 			if err := os.WriteFile(v.t.Path, v.src, 0o644); err != nil {
 				fmt.Fprintln(os.Stderr, "target:", err)
 				os.Exit(3)
+			}
+			if st != nil {
+				os.Chtimes(v.t.Path, st.ModTime(), st.ModTime())
 			}
 			vr, vmsg := runFile(v.t, L)
 			if vmsg != "" {
